@@ -110,7 +110,7 @@ def gen_cases(rng: Rng, tier):
         elif kind == "tolong":
             sub = rng.choice(["dense1", "dense2", "irr1", "irr2"])
             if sub == "dense1":
-                yield dict(kind=kind, sub=sub, n=rng.randint(0, 6), shape=[rng.randint(1, 7)], reindex=rng.random() < 0.5)
+                yield dict(kind=kind, sub=sub, n=rng.randint(1, 6), shape=[rng.randint(1, 7)], reindex=rng.random() < 0.5)
             elif sub == "dense2":
                 yield dict(kind=kind, sub=sub, n=rng.randint(1, 4), shape=[rng.randint(1, 4), rng.randint(1, 5)], reindex=False)
             else:
@@ -334,10 +334,32 @@ def _run_basis(case):
         _try(out, "cov_g", lambda: _lst(g.covariance().values[0].reshape(-1)))
     _try(out, "standardize_b", lambda: _lst(bf.standardize().to_grid().values.reshape(N, -1)))
     _try(out, "standardize_g", lambda: _lst(g.standardize().values.reshape(N, -1)))
+    # non-default options: the same option on both routes
+    _try(out, "nsq_b_simpson", lambda: _lst(bf.norm(squared=True, method_integration="simpson")))
+    _try(out, "nsq_g_simpson", lambda: _lst(g.norm(squared=True, method_integration="simpson")))
+    _try(out, "rescale_b_simpson", lambda: resc(bf, method_integration="simpson"))
+    _try(out, "rescale_g_simpson", lambda: resc(g, method_integration="simpson"))
+    # history on ONE object: same call again after the calls above, then after replacing the coefficients
+    _try(out, "nsq_b_again", lambda: _lst(bf.norm(squared=True)))
+    _try(out, "ip_b_again", lambda: _lst(bf.inner_product()))
+    _try(out, "mean_g_again", lambda: _lst(g.mean().values.reshape(1, -1)))
     # the operations must not have changed the operand
     out["coef_after"] = bool(np.array_equal(bf.coefficients, C))
     out["phi_after"] = bool(np.array_equal(basis.values.reshape(len(out["phi"]), -1),
                                            np.array([[float(F(x)) for x in r] for r in out["phi"]])))
+    C2 = C[::-1] * 2.0 + 1.0
+    try:
+        bf.coefficients = C2
+        fresh = BasisFunctionalData(basis, C2.copy())
+        _try(out, "hist_grid", lambda: _lst(bf.to_grid().values.reshape(N, -1)))
+        _try(out, "hist_grid_fresh", lambda: _lst(fresh.to_grid().values.reshape(N, -1)))
+        _try(out, "hist_nsq", lambda: _lst(bf.norm(squared=True)))
+        _try(out, "hist_nsq_fresh", lambda: _lst(fresh.norm(squared=True)))
+        _try(out, "hist_cov", lambda: _lst(np.asarray(bf.covariance().to_grid().values[0]).reshape(-1)))
+        _try(out, "hist_cov_fresh", lambda: _lst(np.asarray(fresh.covariance().to_grid().values[0]).reshape(-1)))
+        _try(out, "hist_nsq_g", lambda: _lst(bf.to_grid().norm(squared=True)))
+    except Exception as e:
+        out["hist_error"] = err_class(e)
     return out
 
 
@@ -759,6 +781,19 @@ def _oracle_basis(case, impl):
     zero_norm = (not isinstance(nsq, str)) and any(x <= 1e-300 for x in nsq)
     if not zero_norm:
         pair("normalize", "normalize_b", "normalize_g", 1.0 + lin / max(math.sqrt(min(nsq)) if not isinstance(nsq, str) and min(nsq) > 0 else 1.0, 1e-6), "BasisFunctionalData.normalize", tol=1e-7)
+    pair("norm_simpson", "nsq_b_simpson", "nsq_g_simpson", quad, "BasisFunctionalData.norm", tol=1e-7)
+    for kb, kf in (("nsq_b_again", "nsq_b"), ("ip_b_again", "ip_b"), ("mean_g_again", "mean_g"),
+                   ("hist_grid", "hist_grid_fresh"), ("hist_nsq", "hist_nsq_fresh"), ("hist_cov", "hist_cov_fresh"),
+                   ("hist_nsq", "hist_nsq_g")):
+        if kb in impl and kf in impl:
+            a, b_ = impl[kb], impl[kf]
+            if isinstance(a, str) or isinstance(b_, str):
+                if (isinstance(a, str) != isinstance(b_, str)) and not str(a).startswith("skip:") and not str(b_).startswith("skip:"):
+                    bad("history", "BasisFunctionalData.*", f"{kb} = {str(a)[:40]} but {kf} = {str(b_)[:40]}")
+            elif not _near(a, b_, 4 * quad + 4 * lin * lin + 1, 1e-8):
+                bad("history", "BasisFunctionalData.*", f"{kb} differs from {kf}: a repeated / later call on the same object does not match a fresh computation")
+    if "hist_error" in impl:
+        bad("history", "BasisFunctionalData.*", f"history raised {impl['hist_error']}")
     # inner products: coefficient route vs grid route (centred Gram matrix, no noise correction)
     b, g = impl.get("ip_b"), impl.get("ip_g")
     if not isinstance(b, str) and not isinstance(g, str):
@@ -769,7 +804,8 @@ def _oracle_basis(case, impl):
                 f"C G Cᵀ differs from to_grid().inner_product(noise_variance=0): max |Δ| = {np.abs(np.array(b) - np.array(g)).max():.3g}", causes)
     pair("inner_product_centred", "ip_bc", "ip_g", quad, "BasisFunctionalData.inner_product")
     # rescaling
-    for kb, kg in (("rescale_b", "rescale_g"), ("rescale_w_b", "rescale_w_g"), ("rescale_s_b", "rescale_s_g")):
+    for kb, kg in (("rescale_b", "rescale_g"), ("rescale_w_b", "rescale_w_g"), ("rescale_s_b", "rescale_s_g"),
+                   ("rescale_b_simpson", "rescale_g_simpson")):
         if kb not in impl:
             continue
         rb, rg = impl[kb], impl[kg]
